@@ -550,3 +550,81 @@ def transport_prompt(w):
                             "failures": [{"detail": p, "reproduced": True, "witness": {"replay_kind": "transport.prompt"}} for p in probs[:3]]}
     return {"cases": cases, "reproduced": bool(probs), "detail": "; ".join(probs[:3]) or "every complete message was delivered before the connection waited again",
             "failures": [{"detail": p, "reproduced": True, "witness": {"replay_kind": "transport.prompt"}} for p in probs[:3]]}
+
+
+# ---------------------------------------------------------------------------------------------------
+# C05: the endpoint contract the router's fan-out loop relies on (shipped server-side endpoints)
+# ---------------------------------------------------------------------------------------------------
+@kind("router.endpoint_frame")
+def router_endpoint_frame(w):
+    """scenario: real Router with real tcp and tty connection handlers (fake streams) and one more plain client; a device
+    message is fanned out; delivery to a connection must raise nothing, leave the registry and the BLOB policy table as
+    they were, and every registered client must have been served"""
+    from indi.routing import Router, Device, Client
+
+    class Cam(Device):
+        def accepts(self, device):
+            return True
+
+        def message_from_client(self, message):
+            pass
+
+    class Plain(Client):
+        def __init__(self):
+            self.got = []
+
+        def message_from_device(self, message):
+            self.got.append(message)
+
+    async def main(loop):
+        from indi.transport.server import tcp, tty
+        probs = []
+        for order in ("tcp-first", "tty-first", "plain-first"):
+            r = Router()
+            cam = Cam()
+            r.register_device(cam)
+            wt, wy, plain = GatedWriter(), GatedWriter(text=True), Plain()
+            wt.auto = wy.auto = True
+            made = {}
+            for what in {"tcp-first": ("tcp", "tty", "plain"), "tty-first": ("tty", "plain", "tcp"), "plain-first": ("plain", "tcp", "tty")}[order]:
+                if what == "tcp":
+                    made["tcp"] = tcp.ConnectionHandler(ScriptReader([]), wt, r)
+                elif what == "tty":
+                    made["tty"] = tty.ConnectionHandler(r, ScriptReader([], text=True), wy)
+                else:
+                    r.register_client(plain)
+                    made["plain"] = plain
+            clients0 = list(r.clients)
+            pol0 = {id(k): dict((kk, dict(vv) if isinstance(vv, dict) else vv) for kk, vv in v.items()) if isinstance(v, dict) else v
+                    for k, v in r.blob_routing.items()}
+            msgs = [_dev_msg(i + 1) for i in range(3)]
+            for m in msgs:
+                try:
+                    r.process_message(m, sender=cam)
+                except Exception as e:
+                    probs.append("%s: fan-out of a device message raised %r" % (order, e))
+                    break
+                if [id(c) for c in r.clients] != [id(c) for c in clients0]:
+                    probs.append("%s: the client registry changed while a device message was delivered (%d -> %d clients)" % (order, len(clients0), len(r.clients)))
+                    break
+                pol1 = {id(k): dict((kk, dict(vv) if isinstance(vv, dict) else vv) for kk, vv in v.items()) if isinstance(v, dict) else v
+                        for k, v in r.blob_routing.items()}
+                if pol1 != pol0:
+                    probs.append("%s: the BLOB policy table changed while a device message was delivered" % order)
+                    break
+            for _ in range(40):
+                await asyncio.sleep(0)
+            want = b"".join(m.to_string() for m in msgs)
+            if not probs:
+                if b"".join(wt.chunks) != want:
+                    probs.append("%s: the tcp connection did not receive every device message" % order)
+                if b"".join(wy.chunks) != want:
+                    probs.append("%s: the tty connection did not receive every device message" % order)
+                if len(plain.got) != len(msgs):
+                    probs.append("%s: a client registered next to the connections received %d of %d device messages" % (order, len(plain.got), len(msgs)))
+                if wt.closed or wy.closed:
+                    probs.append("%s: delivery closed a connection" % order)
+        return probs
+    probs = run_virtual(main)
+    return {"cases": 3, "reproduced": bool(probs), "detail": "; ".join(probs[:3]) or "delivery left the registry and the policy table unchanged and served every client",
+            "failures": [{"detail": p, "reproduced": True, "witness": {"replay_kind": "router.endpoint_frame"}} for p in probs[:3]]}
